@@ -255,6 +255,59 @@ def rule_u3(chk: Check, ix: Index):
     chk.ok("U3-fresh-state", "no-import-time-instances", repo.SUBHEADER)
 
 
+def rule_u7(chk: Check, rule_id: str = "U7-shared-container"):
+    """A module-level mutable container (list / dict / set display) is one object for the whole process.  Inside functions it may
+    be *consulted* (`x in T`, `T[k]`, `T.get(k)`, iteration, len) but must not be handed on as a value — returned, bound to a
+    local, stored in an object or passed to a call — because whoever receives it may grow it, and then every later parse sees
+    what an earlier one put there."""
+    n_tables = n_uses = 0
+    for rel in MODULES:
+        mod = parse_py(rel)
+        tables = {}
+        for st in mod.body:
+            tgt = val = None
+            if isinstance(st, ast.Assign) and len(st.targets) == 1 and isinstance(st.targets[0], ast.Name):
+                tgt, val = st.targets[0].id, st.value
+            elif isinstance(st, ast.AnnAssign) and isinstance(st.target, ast.Name) and st.value is not None:
+                tgt, val = st.target.id, st.value
+            if tgt and (isinstance(val, (ast.List, ast.Dict, ast.Set, ast.ListComp, ast.DictComp, ast.SetComp)) or (
+                    isinstance(val, ast.Call) and isinstance(val.func, ast.Name) and val.func.id in ("list", "dict", "set", "defaultdict", "OrderedDict"))):
+                tables[tgt] = st
+        n_tables += len(tables)
+        if not tables:
+            continue
+        for fn in [n for n in ast.walk(mod) if isinstance(n, (ast.FunctionDef, ast.AsyncFunctionDef))]:
+            shadow = {a.arg for a in fn.args.args + fn.args.kwonlyargs} | {
+                n.id for n in ast.walk(fn) if isinstance(n, ast.Name) and isinstance(n.ctx, ast.Store)}
+            parents = {}
+            for p in ast.walk(fn):
+                for c in ast.iter_child_nodes(p):
+                    parents[id(c)] = p
+            for n in ast.walk(fn):
+                if not (isinstance(n, ast.Name) and isinstance(n.ctx, ast.Load) and n.id in tables and n.id not in shadow):
+                    continue
+                n_uses += 1
+                p = parents.get(id(n))
+                consult = (isinstance(p, ast.Subscript) and p.value is n and isinstance(p.ctx, ast.Load)) or \
+                    (isinstance(p, ast.Compare) and n in p.comparators and all(isinstance(o, (ast.In, ast.NotIn)) for o in p.ops)) or \
+                    (isinstance(p, ast.Attribute) and p.value is n and p.attr in ("get", "keys", "values", "items", "index", "count", "__contains__",
+                                                                                 "copy")) or \
+                    (isinstance(p, (ast.For, ast.comprehension)) and p.iter is n) or \
+                    (isinstance(p, ast.Call) and isinstance(p.func, ast.Name) and p.func.id in ("len", "sorted", "tuple", "list", "set", "frozenset",
+                                                                                              "dict", "any", "all", "bool", "iter", "enumerate")
+                     and n in p.args) or \
+                    (isinstance(p, ast.Starred)) or (isinstance(p, ast.Compare) and p.left is n and all(isinstance(o, (ast.Is, ast.IsNot, ast.Eq, ast.NotEq)) for o in p.ops))
+                if consult:
+                    continue
+                chk.count(rule_id)
+                chk.fail(rule_id, f"{rel}:{fn.name}:{n.id}", f"{rel}:{n.lineno}",
+                         f"the module-level container `{n.id}` is handed on as a value in `{fn.name}` ({type(p).__name__}): it is one "
+                         f"object shared by every parse of the process, and whoever receives it can grow it — a later parse then sees what "
+                         f"an earlier one left (e.g. the shared list ends up as the `ifs` of every comprehension)")
+    chk.count(rule_id)
+    chk.ok(rule_id, "runtime-modules:scanned", repo.SUBHEADER, f"{n_tables} module-level containers, {n_uses} uses inside functions")
+
+
 def rule_u5(chk: Check):
     """Hash-order-sensitive sinks: iteration over a set may only feed order-insensitive consumers."""
     folded = constfold.fold_tokenize()
@@ -374,3 +427,4 @@ def run(chk: Check):
     rule_s6(chk)
     rule_u5(chk)
     rule_u6(chk, ix)
+    rule_u7(chk)
